@@ -141,6 +141,7 @@ type config struct {
 	Prefix    []int       `json:"prefix,omitempty"`
 	IntervalS int         `json:"interval_s"`
 	Ticks     int         `json:"ticks,omitempty"`
+	ClockNs   int64       `json:"clock_start_unix_ns,omitempty"` // 0: the scheduler's default (2023)
 	Writes    int         `json:"writes,omitempty"`
 }
 
@@ -217,6 +218,9 @@ type system struct {
 }
 
 func newSystem(c config) (*system, error) {
+	if c.ClockNs != 0 {
+		vsched.SetNow(c.ClockNs)
+	}
 	iv := time.Duration(c.IntervalS) * time.Second
 	opts := []report.SenderOption{report.SenderNow(vsched.Now), report.SenderInterval(iv)}
 	if c.UseLatest {
@@ -542,6 +546,13 @@ func configs(tier string) []config {
 				}
 			}
 		}
+	}
+	// report instants after the end of NTP era 0 (2036-02-07T06:28:16Z): the 32-bit seconds field has wrapped,
+	// the fraction must still be that of the instant; one start lets the second tick cross the era boundary
+	const eraEnd = int64(1<<32-2208988800) * 1_000_000_000
+	for _, at := range []int64{eraEnd - 15_700_000_000, eraEnd + 86400_500_000_000, 2_208_988_800_250_000_000} {
+		out = append(out, config{Kind: "one", IntervalS: 10, Depth: 4, ClockNs: at,
+			Streams: []streamCfg{{SSRC: 0xABCD, Rate: 90000, StartSeq: 65535, StartTS: 1}}})
 	}
 	for _, ul := range []bool{false, true} {
 		c := config{Kind: "two", UseLatest: ul, IntervalS: 10, Depth: 5,
